@@ -203,7 +203,8 @@ def replay_parallel(binp, scheds, shards, sc, tmo):
             path = os.path.join(sc, "sched-%d.ndjson" % k)
             with open(path, "w") as fh:
                 for s in parts[k]:
-                    fh.write(json.dumps({"id": s["id"], "steps": s["steps"], "final": s["final"]}) + "\n")
+                    fh.write(json.dumps({"id": s["id"], "steps": s["steps"], "final": s["final"],
+                                         "stall_at": s.get("stall_at", -1), "stall_ms": s.get("stall_ms", 0)}) + "\n")
             res, _, _, restarts = run_subject(binp, lambda i: ["replay", path, str(i), str(tmo)], 0, len(parts[k]))
             results[k] = (res, restarts)
         except Exception as e:  # noqa
@@ -230,6 +231,26 @@ def replay_parallel(binp, scheds, shards, sc, tmo):
         if "race" in res:
             out.append((None, res["race"]))
     return out, restarts
+
+
+def stall_point(s):
+    """Index of a WriteDone(c) before which a delivery to c is blocked in its send (released, not yet received)
+    while c stays connected and later receives it: the place where a slow reader's stall can be stretched."""
+    sending, cancelled = collections.defaultdict(set), set()
+    for j, l in enumerate(s["steps"]):
+        a = l["a"]
+        if a == "run" and not l.get("panic"):
+            sending[l["c"]].add(l["b"])
+        elif a == "deliver":
+            sending[l["c"]].discard(l["b"])
+        elif a == "cancel":
+            cancelled.add(l["c"])
+        elif a == "wdone" and sending[l["c"]] and l["c"] not in cancelled:
+            c, bs = l["c"], set(sending[l["c"]])
+            later = {x["b"] for x in s["steps"][j + 1:] if x["a"] == "deliver" and x["c"] == c}
+            if bs & later and set(s["final"]["got"][c]) & bs & later:
+                return j
+    return None
 
 
 def short(steps):
@@ -368,9 +389,10 @@ def main():
             raise vlib.InfraError("repaired design violates %s with 3 clients" % big.violated)
         ck.add_tlc(big, "Sse_mc safety: 3 clients x 2 broadcasts")
     negs = {}
-    for cfg, inv in (("Sse_close.cfg", "NoPanic"), ("Sse_noclose.cfg", "NoLeak"), ("Sse_locked.cfg", "BroadcasterNeverBlocks")):
+    for cfg, inv in (("Sse_close.cfg", "NoPanic"), ("Sse_noclose.cfg", "NoLeak"), ("Sse_locked.cfg", "BroadcasterNeverBlocks"),
+                     ("Sse_timeoutdrop.cfg", "DeliveredAtQuiescence"), ("Sse_timeoutdrop_live.cfg", "Delivered")):
         r = vlib.tlc("Sse", cfg, workers=1, timeout=300)
-        if r.violated != inv:
+        if r.violated != inv and not (inv == "Delivered" and r.violated == "TemporalProperty"):
             raise vlib.InfraError("negative config %s was not rejected with %s (got %s)" % (cfg, inv, r.violated))
         negs[cfg] = inv
         if cfg == "Sse_close.cfg":
@@ -443,6 +465,36 @@ def main():
         if st[0][1].get("outcome") != "fail" or st[0][1].get("sig") != "Deliver.NotReceived":
             raise vlib.InfraError("binding self-test: corrupted prediction (client %s got [1,2]) was not reported: %r" % (cname, st[0][1]))
         ck.set("binding_selftest_schedule", "corrupted prediction reported: " + st[0][1]["what"])
+    # --- long-stall family: the same behaviours with one stalled write stretched in REAL time -----------
+    # (a delivery that gives up after a while -- design "timeoutdrop" -- only shows when the handler is busy that long)
+    stall_ms = 2700
+    cand = [(x, stall_point(x)) for x in calm]
+    cand = [(x, j) for x, j in cand if j is not None]
+    rng.shuffle(cand)
+    nstall = 24 if thorough else 8
+    picked = [dict(x, stall_at=j, stall_ms=stall_ms) for x, j in cand[:nstall]]
+    if thorough:
+        picked += [dict(x, stall_at=j, stall_ms=6500) for x, j in cand[nstall:nstall + 12]]
+    if len(picked) < 4:
+        raise vlib.InfraError("only %d schedules with a delivery pending across a write: long-stall family too thin" % len(picked))
+    if not ck._nviol:
+        so, _ = replay_parallel(binp, picked, 12 if thorough else 8, sc, 20 if thorough else 10)
+        scounts = collections.Counter()
+        for x, r in so:
+            if x is None:
+                ck.violation("DataRace", "the race detector reported a data race during the long-stall replay", {"report": r["msg"]})
+                continue
+            r = dict(r)
+            if r.get("outcome") == "fail":
+                r["what"] = "(write stalled for %d ms of real time before step %d) %s" % (x["stall_ms"], x["stall_at"], r.get("what", ""))
+            judge(ck, design, x, r, scounts)
+        nso = sum(1 for x, _ in so if x is not None)
+        if nso != len(picked) and not scounts["fail"]:
+            raise vlib.InfraError("long-stall family: replayed %d of %d" % (nso, len(picked)))
+        ck.set("long_stall_schedules", len(picked))
+        ck.set("long_stall_ms", sorted({x["stall_ms"] for x in picked}))
+        ck.set("long_stall_outcomes", dict(scounts))
+        counts.update({"drift": scounts["drift"]})
     acts = collections.Counter(l["a"] for s in chosen for l in s["steps"])
     need = {"reg", "wdone", "wfail", "cancel", "exitctx", "unreg", "bspawn", "run", "deliver"} | ({"abandon"} if design == "done" else set())
     if not need <= set(acts):
@@ -550,6 +602,8 @@ def main():
                    "lies on a replayed complete behaviour" + ("" if len(chosen) == len(scheds) else " (this run: all behaviours that end without a panic + a seeded sample of 64 panicking ones)"))
     ck.assume("schedules in which a handler's select has two ready cases at once (Go picks at random) are not driven deterministically; they are covered by MC and by the validated stress traces")
     ck.assume("timer ticks after the time-0 ping (every 5 s) do not occur within a replayed schedule; MC explores them (MaxPings)")
+    ck.assume("slow readers in real time: %d replayed behaviours keep one write stalled for %s ms while a delivery to that client is pending "
+              "and require the event afterwards; a delivery that gives up only after a longer wait than that cannot be observed" % (len(picked), "/".join(str(x) for x in sorted({x["stall_ms"] for x in picked}))))
     ck.assume("a stalled browser is a Write that does not return; a departed browser is a cancelled request context plus failing writes")
     ck.finish()
 
